@@ -354,7 +354,7 @@ func cmdVerify(args []string) {
 				fmt.Printf("UNDECIDED: contract %s.%s has no function in this configuration\n", path, k)
 				continue
 			}
-			if fc.Assumed {
+			if fc.Assumed || fc.CTOnly {
 				continue
 			}
 			pats := append([]AliasPattern{nil}, fc.Alias...)
